@@ -21,6 +21,7 @@ from whatshap.vcf import VcfReader, VcfError, VariantTable, VariantCallPhase, Vc
 from whatshap.core import NumericSampleIds
 from whatshap.timer import StageTimer
 from whatshap.utils import Region, stdout_is_regular_file
+from whatshap.variants import alignment_overlaps_regions
 
 
 logger = logging.getLogger(__name__)
@@ -616,9 +617,13 @@ def run_haplotag(
                 read_to_haplotype = None
 
             assert not include_unmapped or len(regions) == 1
+            previous_regions = []
             for start, end in regions:
                 logger.debug("Working on %s:%s-%s", chrom, start, end)
                 for alignment in bam_reader.fetch(contig=chrom, start=start, stop=end):
+                    if alignment_overlaps_regions(alignment, previous_regions):
+                        # already written when an earlier region was processed
+                        continue
                     n_alignments += 1
                     haplotype_name = "none"
                     phaseset = "none"
@@ -664,6 +669,7 @@ def run_haplotag(
 
                     if n_alignments % 100_000 == 0:
                         logger.debug(f"Processed {n_alignments} alignment records.")
+                previous_regions.append((start, end))
         if include_unmapped:
             logger.debug("Copying unmapped reads to output")
             for alignment in bam_reader.fetch(contig="*"):
